@@ -1,5 +1,24 @@
-import SmtpV.Model.Server
-import SmtpV.Spec.Monitors
-/-! # C08 (theorems follow) -/
+import SmtpV.Props.C03
+/-!
+# C08 — each session is logged out exactly once; nothing runs after the end
+
+The theorems live next to C03's (both are consequences of `order_accepts_every_connection`); they are restated here
+under the property's own name.
+-/
 namespace SmtpV.Props.C08
+open SmtpV SmtpV.Spec SmtpV.Server SmtpV.Props.C03
+
+/-- **C08_lifecycle.**  On every connection — every input, backend script, configuration, including every point at
+    which the input ends (the command loop simply stops there and the deferred Close runs) — each session is logged
+    out exactly once, nothing is called on it afterwards, the connection is closed exactly once and nothing is written
+    or called after that. -/
+theorem C08_lifecycle (s : S) (h : Fresh s) : Mon.check8 (serve s).evs.reverse = [] := C03.C08_lifecycle s h
+
+theorem C08_lifecycle_visible (s : S) (h : Fresh s) : Mon.check8 ((serve s).evs.reverse.filter visible) = [] :=
+  C03.C08_lifecycle_visible s h
+
+/-- the connection always ends closed, with nobody logged in -/
+theorem C08_ends_closed (s : S) (h : Fresh s) : (serve s).c.closed = true ∧ (serve s).c.session = none :=
+  let ⟨_, _, hc, hs⟩ := serve_good (fresh_good s h); ⟨hc, hs⟩
+
 end SmtpV.Props.C08
